@@ -126,7 +126,11 @@ static std::unique_ptr<DiscreteDistributionInterface> buildDist(const Toks& t, s
   auto N = [&]() { return toU(t.at(p++)); };
   if (f == "G") { size_t n = N(); double a = D(), b = D(); return std::unique_ptr<DiscreteDistributionInterface>(new GammaDiscreteDistribution(n, a, b)); }
   if (f == "Go") { size_t n = N(); double a = D(), b = D(), o = D(); return std::unique_ptr<DiscreteDistributionInterface>(new GammaDiscreteDistribution(n, a, b, 0.05, 0.05, true, o)); }
+  if (f == "Gf") { size_t n = N(); double a = D(), b = D(), o = D(); return std::unique_ptr<DiscreteDistributionInterface>(new GammaDiscreteDistribution(n, a, b, 0.05, 0.05, false, o)); }   // a FIXED offset (not a parameter)
   if (f == "B") { size_t n = N(); double a = D(), b = D(); return std::unique_ptr<DiscreteDistributionInterface>(new BetaDiscreteDistribution(n, a, b)); }
+  if (f == "Bi") { size_t n = N(); double a = D(), b = D(); return std::unique_ptr<DiscreteDistributionInterface>(new BetaDiscreteDistribution(n, a, b, AbstractDiscreteDistribution::DISCRETIZATION_EQUAL_INTERVAL)); }
+  if (f == "Bp") { size_t n = N(); double a = D(), b = D(); return std::unique_ptr<DiscreteDistributionInterface>(new BetaDiscreteDistribution(n, a, b, AbstractDiscreteDistribution::DISCRETIZATION_EQUAL_PROB)); }
+  if (f == "Md") { auto sub = buildDist(t, p); sub->setMedian(true); return sub; }                // class values = medians
   if (f == "E") { size_t n = N(); double l = D(); return std::unique_ptr<DiscreteDistributionInterface>(new ExponentialDiscreteDistribution(n, l)); }
   if (f == "N") { size_t n = N(); double m = D(), sg = D(); return std::unique_ptr<DiscreteDistributionInterface>(new GaussianDiscreteDistribution(n, m, sg)); }
   if (f == "T") { size_t n = N(); double l = D(), tp = D(); return std::unique_ptr<DiscreteDistributionInterface>(new TruncatedExponentialDiscreteDistribution(n, l, tp)); }
@@ -162,7 +166,7 @@ static std::string showDist(const DiscreteDistributionInterface& d) {
 static std::string op(const Toks& t) {
   const std::string& o = t[0];
   try {
-    if (o == "dist.rt") {        // dist.rt <precision> <dist in prefix notation>: write the description, read it back
+    if (o == "dist.rt" || o == "dist.rtp") {   // dist.rtp: the same call, on parameters the text cannot carry        // dist.rt <precision> <dist in prefix notation>: write the description, read it back
       int prec = static_cast<int>(toI(t[1])); size_t p = 2;
       std::unique_ptr<DiscreteDistributionInterface> d;
       try { d = buildDist(t, p); } catch (Exception&) { return "build:exc:bpp"; }
